@@ -467,7 +467,7 @@ def read(dialect, parts, odata=False):
     toks, problems = lex_template(parts, odata=odata)
     p = Parser(dialect, toks)
     if not toks:
-        return {"tree": ("empty",), "lvlL": INF, "lvlR": INF, "problems": problems + ["empty text"], "side": [],
+        return {"tree": ("empty",), "lvlL": LV(), "lvlR": LV(), "problems": problems + ["empty text"], "side": [],
                 "data": [], "used": []}
     tree, lL, lR = p.expr(0)
     if p.i < len(toks):
